@@ -104,7 +104,7 @@ func Check() *core.Check {
 		Assumptions: []string{
 			"generator domain = semantic intersection of RE2 and ECMAScript: no back-references / look-around in P, no quantified group whose body can match empty (KF C20-empty-check-*), inside repeated groups captures only where they take part in every iteration (KF C20-stale-captures-in-repeat)",
 			"with the i flag alphabets are limited to characters with a simple 1:1 same-plane case pair (KF C20-unicode-folding-without-u); regexp2 needs 50-90 ms to compile large case-insensitive sets, so \\W \\D \\S . and negated classes are rare under i",
-			"neighbourhoods of the listed defects of the dependency regexp2 v2.5.2 are excluded: negated one-character classes, \\b/\\B next to non-ASCII letters/marks/digits, '-' as range start, surrogate literals touching another literal or repeated {2,}, '.' with U+2028/U+2029 in the alphabet, \\D as class item; [] / [^] under u with code points above U+1FFFF (KF C20-empty-class-above-1ffff)",
+			"neighbourhoods of the listed defects of the dependency regexp2 v2.5.2 are excluded: negated one-character classes, \\b/\\B next to non-ASCII letters/marks/digits, '-' as range start, no surrogate code unit / U+FFFF anywhere in a pattern (subjects still have them), '.' with U+2028/U+2029 in the subject, \\D / \\W as class item or lone alternative, groups counted {2,}, \\B after a quantifier; Go regexp/syntax: no exact case-pair class [Xx] in patterns with an alternation (KF C20-go-regexp-alternation-fold-prefix); [] / [^] under u with code points above U+1FFFF (KF C20-empty-class-above-1ffff)",
 			"subjects are at most 24 UTF-16 units, patterns at most depth 3 / 60 units: larger inputs are outside the quantifier",
 			"the regexp engines themselves are not fuel-metered; a battery that exhausts the VM fuel is inconclusive",
 			"a lastIndex inside a surrogate pair under u: the reported index may be lastIndex or lastIndex-1 (spec text leaves it open, V8 backs up); reref (thorough) is not consulted there, nor for the m flag with CR/LS/PS in the subject (KF C20-multiline-anchors-only-lf)",
